@@ -148,6 +148,7 @@ struct bed : central_listener
     bool                        remote_reason_22 = false;
     unsigned                    enc_req_event = 0;
     bool                        first_instant_heard = false;
+    bool                        invalid_connect_ind = false;
     bool                        instant_pending = false;    // set by the driver: a PDU with an instant is on its way or waiting
 
     // procedure response timeout bookkeeping (C27)
@@ -314,10 +315,32 @@ struct bed : central_listener
 
     bool connected() const { return cen.in_connection; }
 
+    // LLData of a CONNECT_IND inside the ranges of Core Vol 6 Part B 2.3.3.1 / 4.5.2
+    static bool valid_by_spec( const conn_params& p )
+    {
+        return p.interval >= 6 && p.interval <= 3200
+            && p.win_size >= 1 && p.win_size <= std::min< unsigned >( 8, p.interval - 1 )
+            && p.win_offset <= p.interval
+            && p.latency <= 499
+            && p.timeout >= 10 && p.timeout <= 3200
+            && p.timeout * 8u > ( 1u + p.latency ) * p.interval * 2u;   // timeout * 10 ms > ( 1 + latency ) * interval * 1.25 ms * 2
+    }
+
     // ---- central_listener
     void on_connect_ind( unsigned, std::uint64_t t ) override
     {
         t_connect = t;
+
+        if ( !valid_by_spec( cen.next_connection ) )
+        {
+            // must not connect: no callback is expected; one that comes anyway is reported by the lifecycle checker
+            note( "C>CONNECT_IND(invalid)" );
+            invalid_connect_ind = true;
+            life.mon.cls( "invalid_connect_ind" );
+            return;
+        }
+
+        invalid_connect_ind = false;
         note( "C>CONNECT_IND" );
         life.truth_connect_ind();
         resp.reset_connection();
@@ -537,6 +560,14 @@ struct bed : central_listener
         for ( unsigned i = 0; i < 12 && !cen.in_connection; ++i )
             run_once();
 
+        // an invalid connect request is refused: the link layer goes on advertising
+        if ( invalid_connect_ind && cen.in_connection && ll->is_advertising_scheduled() )
+        {
+            invalid_connect_ind = false;
+            cen.in_connection = false;
+            return false;
+        }
+
         return cen.in_connection && ll->is_connection_event_scheduled();
     }
 
@@ -591,7 +622,8 @@ struct bed : central_listener
         conn_params p;
         do { p.interval = intervals[ rng.below( 9 ) ]; } while ( p.interval > max_interval );
         p.latency    = 0;
-        p.win_size   = static_cast< std::uint8_t >( 1 + rng.below( std::min< unsigned >( 8, p.interval ) ) );
+        // transmitWindowSize: 1.25 ms .. min( 10 ms, connInterval - 1.25 ms )   (Vol 6 Part B 2.3.3.1)
+        p.win_size   = static_cast< std::uint8_t >( 1 + rng.below( std::min< unsigned >( 8, p.interval - 1 ) ) );
         p.win_offset = static_cast< std::uint16_t >( rng.below( p.interval + 1 ) );
         // timeout (10 ms) > 2 * interval (1.25 ms), 100 ms .. 32 s
         const unsigned min_to = std::max< unsigned >( 10, p.interval / 4 + 2 );
